@@ -22,6 +22,7 @@ jax.config.update("jax_enable_x64", True)
 from probdiffeq._probdiffeq import ssm_impl_api  # noqa: E402
 
 D = 2  # dimension of (fake) data / Taylor-coefficient arrays
+STD_SCALAR = [False]  # True: std returns one scalar per coefficient (shape (1,)), like the isotropic model does
 RMS_DEN = 1024.0
 
 
@@ -137,7 +138,7 @@ class TNormal(ssm_impl_api.AbstractTreeNormal):
     @property
     def std(self):
         TR.op("read_std", 0, [self.mean_flat])
-        return self._coeff(lambda i, k: 2.0 ** (-jnp.mod(i, 4.0)) * (k + 1.0) / 2.0, (1.0, 2.0))
+        return self._coeff(lambda i, k: 2.0 ** (-jnp.mod(i, 4.0)) * (k + 1.0) / 2.0, (1.0,) if STD_SCALAR[0] else (1.0, 2.0))
 
     def sample_tree(self, key):
         return [self.sample_flat(key)]
